@@ -28,7 +28,7 @@ type concRec struct {
 	clock int64
 }
 
-func (c *concRec) tick() int64 { return atomic.AddInt64(&c.clock, 1) }
+func (c *concRec) tick() int64 { bump(); return atomic.AddInt64(&c.clock, 1) }
 func (c *concRec) add(o concOp) {
 	c.mu.Lock()
 	c.ops = append(c.ops, o)
